@@ -64,6 +64,10 @@ WITNESS = {
             "compare on negative xs:durations: the EQUAL shortcut runs compareOrder, whose normalize() treats the sign flag "
             "(UTC_NEG) as a time zone and rolls the negative month/day fields into calendar fields, so -P1M and -P30D "
             "(incomparable by 3.2.6.2) compare EQUAL"),
+    "F38": (["pe U(int+boolean)[enum=1|false] " + G.hx("true"), "pe L(U(int+boolean))[enum=1~true] " + G.hx("1 1")], ["valid", "valid"], "f38",
+            "value equality on union types ignores the member type: UnionDatatypeValidator::compare and its enumeration "
+            "check accept a pair as equal when ANY member type validates both literals and compares them equal, so the "
+            "boolean literal 'true' matches the enumerated integer 1 (and 0 matches false) for a union of int and boolean"),
     "F12": (["xsv base64Binary " + G.hx("\u0141AAA"), "pe base64Binary " + G.hx("\u0141AAA"),
              "xsv base64Binary " + G.hx("AAAA\u0100!!")], ["1", "valid", "1"], "f12",
             "base64Binary narrows UTF-16 code units to bytes: a character >= U+0100 whose low byte is a base64 letter is "
